@@ -356,10 +356,20 @@ fn echo_pairs(body: &[u8]) -> Value {
 
 fn map_events(c: &Value) -> Vec<Value> {
     let mut m: HashMap<String, String> = HashMap::new();
+    // a value is a string, or ["rep", unit, n] = the unit repeated n times (long values are written that way by the generator)
+    let expand = |v: &Value| -> String {
+        match v.as_array() {
+            Some(a) if a.len() == 3 && a[0] == "rep" => a[1].as_str().unwrap_or("").repeat(a[2].as_u64().unwrap_or(1) as usize),
+            _ => v.as_str().unwrap_or("").to_string(),
+        }
+    };
+    let mut expanded: Vec<Value> = vec![];
     for p in c["pairs"].as_array().unwrap() {
-        m.insert(p[0].as_str().unwrap().to_string(), p[1].as_str().unwrap().to_string());
+        let (k, v) = (expand(&p[0]), expand(&p[1]));
+        expanded.push(json!([k, v]));
+        m.insert(k, v);
     }
-    let value = json!({"pairs": c["pairs"]});
+    let value = json!({"pairs": expanded});
     let mut evs = vec![];
     // leg 1: query
     let m1 = m.clone();
@@ -431,6 +441,7 @@ pub fn run(o: &Opts) -> i32 {
                 "multipart_corrupt" => out.emit(&multipart_corrupt(c)),
                 "boundary_param" => out.emit(&boundary_param(c)),
                 "json_object" => out.emit(&crate::d_json::json_object(c)),
+                "json_odd" => out.emit(&crate::d_json::json_odd(c)),
                 "json_array" => out.emit(&crate::d_json::json_array(c)),
                 "map" => {
                     for e in map_events(c) {
